@@ -361,6 +361,7 @@ pub fn replay_parse(rep: &mut Report, rec: &J) {
 		if let Ok(Ok((v, cm))) = guarded(|| Value::parse_str_with(&s, o)) {
 			check_lookups(rep, &ctx, &v);
 			if rec.get("nav").is_some() && project(&v) == exp["v"] && project_cm(&cm) == exp["cm"] {
+				crate::navv::NAV_OPTIONS.with(|x| *x.borrow_mut() = o);
 				if let Err(p) = guarded(|| crate::navv::check_nav(rep, &ctx, &s, &v, &cm, &rec["nav"])) {
 					rep.mismatch("C11.nav", json!({"what": "navigation panicked", "input": ctx, "panic": p}));
 				}
